@@ -13,8 +13,16 @@ A result `none` is a Rust panic: a panic inside the solver (`SolveError.panic _`
 `final_values[..]` out of bounds while labelling.  `ConstraintSystem<'_>` borrows the problem's label
 lists; here the problem `p` is passed alongside the built system `cs`.
 
-That the bodies of these methods still have this shape is checked on every run by
-`tools/extract.py` (`text_methods_shape`), and their agreement on the real code by `oracle_c10`.
+Tie to the source: `tools/extract.py` regenerates on every run the call structure
+(`Gen.TEXT_METHODS`), the bodies themselves with whitespace and comments removed
+(`Gen.TEXT_METHOD_BODIES`, the long labelling function as a SHA-256) and the priority
+`to_constraint_system` assigns (`Gen.TEXT_PRIORITY`); `Proofs/TextMethods.lean` pins all three
+(`text_methods_shape`, `text_method_bodies`, `text_priority_zero`).  The agreement of the real methods
+on f64 is checked by `oracle_c10`.
+
+SCOPE: `cs.constraints` is a list of constraints, every one solved at priority 0 (`requests`).  The
+Rust field `pub constraints: Vec<ConstraintRequest>` is public: a caller who pushes a request with
+another priority into a built system leaves this model (that is the library's multi-priority solve).
 -/
 import Ezpz.Model.CliMain
 namespace Ezpz.Text
